@@ -874,9 +874,15 @@ func checkReadErrorOnlyFromSocket(p *Prog, r *Report) {
 		}
 		for _, s := range p.CallsTo(m) {
 			root := rootFuncInfo(s.Fn)
-			// the listener's own fan-out hands the same error on to its sessions
+			// the listener's own fan-out hands the same error on to its sessions (directly, or in a helper that only
+			// notifyReadError calls)
 			if root.Obj != nil && root.Obj.Name() == "notifyReadError" {
 				continue
+			}
+			if caller, _, okL := p.singleCaller(root); okL {
+				if cr := rootFuncInfo(caller); cr.Obj != nil && cr.Obj.Name() == "notifyReadError" {
+					continue
+				}
 			}
 			n++
 			construct := "error handed to notifyReadError in " + s.Fn.Name
